@@ -70,6 +70,8 @@ type Run struct {
 	samples   []any
 	maxSample int
 	Harness   bool // a harness error occurred: exit 2 without VIOLATION
+	// OnlySite/OnlySymptom restrict reporting to one (site, symptom) pair (replay mode; evidence is not written)
+	OnlySite, OnlySymptom string
 }
 
 func Start(prop string) *Run {
@@ -113,6 +115,9 @@ func (r *Run) Report(v Violation) {
 	r.mu.Lock()
 	defer r.mu.Unlock()
 	v.Property = r.Prop
+	if r.OnlySite != "" && (v.Site != r.OnlySite || v.Symptom != r.OnlySymptom) {
+		return
+	}
 	for _, f := range r.findings {
 		if f.Status == "known" && f.Property == r.Prop && f.Site == v.Site && f.Symptom == v.Symptom {
 			r.known[f.ID]++
@@ -152,6 +157,9 @@ func (r *Run) Finish() int {
 		_ = os.MkdirAll(dir, 0o755)
 		p := filepath.Join(dir, hex.EncodeToString(h[:6])+".json")
 		_ = os.WriteFile(p, b, 0o644)
+		if sh, ok := v.Case["repro_sh"].(string); ok && sh != "" {
+			_ = os.WriteFile(strings.TrimSuffix(p, ".json")+".sh", []byte(sh), 0o755)
+		}
 		fmt.Printf("VIOLATION property=%s replay=%s\n", r.Prop, p)
 		fmt.Printf("  site=%s symptom=%s\n  %s\n", v.Site, v.Symptom, strings.ReplaceAll(firstN(v.Detail, 1500), "\n", "\n  "))
 	}
